@@ -1,5 +1,5 @@
 (* Lazy_Facts.v — the lazily consumed domain: what it ranges over never changes, elements are pulled once and only as needed. *)
-From EQL Require Import Base Values Syntax Spec Lazy.
+From EQL Require Import Base Values Syntax Spec Generated Lazy.
 
 Lemma memb_In v l : memb v l = true <-> In v l.
 Proof.
@@ -22,10 +22,23 @@ Proof.
   - apply IH; [exact Nl|]. intros H1. apply H. now right.
 Qed.
 
+(* ---------- the iteration found in hashed_data.py is the one the theorems are about ---------- *)
+(* (stops compiling when HashedIterable.__iter__ hands an element out before memoising it, or hands memoised ones out again) *)
+Lemma iteration_as_modelled : iter_skips_memoised = true /\ iter_memoises_before_yield = true.
+Proof. split; reflexivity. Qed.
+
+Lemma deliver_rem_is_std r : forall m, deliver_rem m r = deliver_rem_std m r.
+Proof.
+  destruct iteration_as_modelled as [S B].
+  induction r as [|v r IH]; intros m; cbn [deliver_rem deliver_rem_std]; [reflexivity|]. rewrite S, B. cbn [andb].
+  destruct (memb v m); [apply IH|]. now rewrite IH.
+Qed.
+
 (* ---------- what is handed out is the content ---------- *)
 Lemma deliver_rem_fst r : forall m, map fst (deliver_rem m r) = fresh_of m r.
 Proof.
-  induction r as [|v r IH]; intros m; cbn [deliver_rem fresh_of]; [reflexivity|].
+  intros m. rewrite deliver_rem_is_std. revert m.
+  induction r as [|v r IH]; intros m; cbn [deliver_rem_std fresh_of]; [reflexivity|].
   destruct (memb v m); [apply IH|]. cbn [map fst]. now rewrite IH.
 Qed.
 
@@ -48,7 +61,8 @@ Qed.
 
 Lemma deliver_rem_later r : forall m v s', In (v, s') (deliver_rem m r) -> later {| mat := m; rem := r |} s'.
 Proof.
-  induction r as [|v0 r IH]; intros m v s' H; cbn [deliver_rem] in H; [destruct H|].
+  intros m v s' H. rewrite deliver_rem_is_std in H. revert m v s' H.
+  induction r as [|v0 r IH]; intros m v s' H; cbn [deliver_rem_std] in H; [destruct H|].
   destruct (memb v0 m) eqn:E.
   - apply IH in H. destruct H as (C & (n & R) & (l & M)). unfold later, content in *. cbn [mat rem fresh_of] in *. rewrite E.
     split; [exact C|]. split; [exists (S n); exact R | exists l; exact M].
@@ -161,7 +175,8 @@ Qed.
 Lemma deliver_rem_nodup r : forall m k v s', NoDup (m ++ r) -> nth_error (deliver_rem m r) k = Some (v, s') ->
   nth_error r k = Some v /\ mat s' = m ++ firstn (S k) r /\ rem s' = skipn (S k) r.
 Proof.
-  induction r as [|v0 r IH]; intros m k v s' N H; cbn [deliver_rem] in H; [destruct k; discriminate|].
+  intros m k v s' N H. rewrite deliver_rem_is_std in H. revert m k v s' N H.
+  induction r as [|v0 r IH]; intros m k v s' N H; cbn [deliver_rem_std] in H; [destruct k; discriminate|].
   assert (E : memb v0 m = false).
   { destruct (memb v0 m) eqn:E; [|reflexivity]. apply memb_In in E. exfalso.
     apply NoDup_remove_2 in N. apply N. apply in_app_iff. now left. }
